@@ -243,6 +243,14 @@ def run(run: Run):
     run.coverage_extra["wall"] = round(time.time() - run.t0, 1)
     run.coverage_extra["depth"] = depth
     run.coverage_extra["trees_enumerated"] = len(_TREES)
+    run.coverage_extra["constructor_options_covered"] = sg.option_coverage(_TREES)
+    run.coverage_extra["constructor_options_not_varied"] = [
+        "dataclass_field(default/default_factory/init/repr/hash/compare) and bitfield_field(default...) -- no effect on the wire",
+        "IntEnum/IntFlag/StringEnumAdapter enum_cls, Dataclass data_cls, ExprAdapter functions: one fixture each (E8/E2/F8/SEnum, generated DC, x*2+1 | identity)",
+        "Str/StrFixed have no encoding option (UTF-8 is hard-coded); TypedBytesFixed(empty_is_none=True) is ill-typed unless length 0",
+        "BytesTerminated/CStr(write_terminator=False, eof_terminates=False) cannot be read back on its own (ill-typed)",
+        "NumPyArray / QuantizedNumPyArray / BinaryLLSD / FHReader are not in the grammar; BufferWriter/Reader endianness in {'<','>'}",
+    ]
 
 
 def replay(w):
